@@ -31,6 +31,69 @@ FuncDef = (ast.FunctionDef, ast.AsyncFunctionDef)
 Scope = (ast.FunctionDef, ast.AsyncFunctionDef, ast.ClassDef, ast.Lambda)
 
 
+class _LiteralMatchToIf(ast.NodeTransformer):
+    """`match <name>:` whose cases are all literal patterns (`case "a" | "b":`, `case 1:`, optional final `case _:`, no
+    guards) is the if/elif chain `if <name> in "ab": ... elif <name> == ...: ... else: ...` - the subject is a plain name,
+    evaluated without side effect, and a literal pattern compares with `==`.  The rules read comparisons; rewriting the
+    tree once here lets every one of them see through this spelling (positions are those of the original nodes).
+    Class patterns and anything with a guard or a capture are left alone (rules.language_rules.pattern_facts reads those)."""
+
+    @staticmethod
+    def _alts(p: ast.pattern) -> list[ast.Constant] | None:
+        if isinstance(p, ast.MatchValue) and isinstance(p.value, ast.Constant):
+            return [p.value]
+        if isinstance(p, ast.MatchOr):
+            out: list[ast.Constant] = []
+            for q in p.patterns:
+                if not (isinstance(q, ast.MatchValue) and isinstance(q.value, ast.Constant)):
+                    return None
+                out.append(q.value)
+            return out
+        return None
+
+    def visit_Match(self, node: ast.Match) -> ast.AST:
+        self.generic_visit(node)
+        if not isinstance(node.subject, ast.Name) or not node.cases:
+            return node
+        arms: list[tuple[ast.expr | None, list[ast.stmt]]] = []
+        for i, c in enumerate(node.cases):
+            if c.guard is not None:
+                return node
+            if isinstance(c.pattern, ast.MatchAs) and c.pattern.pattern is None and c.pattern.name is None:
+                if i != len(node.cases) - 1:
+                    return node
+                arms.append((None, c.body))
+                continue
+            alts = self._alts(c.pattern)
+            if not alts or any(isinstance(a.value, (bool, type(None))) for a in alts):
+                return node
+            subj = ast.copy_location(ast.Name(id=node.subject.id, ctx=ast.Load()), node.subject)
+            if len(alts) == 1:
+                test: ast.expr = ast.Compare(left=subj, ops=[ast.Eq()], comparators=[alts[0]])
+            elif all(isinstance(a.value, str) and len(a.value) == 1 for a in alts):
+                test = ast.Compare(left=subj, ops=[ast.In()], comparators=[ast.copy_location(ast.Constant(value="".join(a.value for a in alts)), alts[0])])
+            else:
+                test = ast.Compare(left=subj, ops=[ast.In()], comparators=[ast.copy_location(ast.Tuple(elts=list(alts), ctx=ast.Load()), alts[0])])
+            ast.copy_location(test, c.pattern)
+            arms.append((test, c.body))
+        if arms[0][0] is None:
+            return node
+        orelse: list[ast.stmt] = []
+        for test, body in reversed(arms):
+            if test is None:
+                orelse = list(body)
+                continue
+            new_if = ast.If(test=test, body=list(body), orelse=orelse)
+            ast.copy_location(new_if, test)
+            new_if.end_lineno = getattr(body[-1], "end_lineno", getattr(test, "end_lineno", None))
+            new_if.end_col_offset = getattr(body[-1], "end_col_offset", 0)
+            orelse = [new_if]
+        top = orelse[0]
+        top.lineno, top.col_offset = node.lineno, node.col_offset
+        top.end_lineno, top.end_col_offset = node.end_lineno, node.end_col_offset
+        return top
+
+
 class Module:
     def __init__(self, name: str, path: Path, rel: str | None = None) -> None:
         self.name = name
@@ -42,6 +105,7 @@ class Module:
             self.tree = ast.parse(self.src, filename=str(path))
         except SyntaxError as e:  # pragma: no cover
             raise AnalysisError(f"cannot parse {path}: {e}") from e
+        self.tree = _LiteralMatchToIf().visit(self.tree)
         self.is_package = path.name == "__init__.py"
         self.defs: dict[str, ast.AST] = {}  # qualname -> def node
         self._annotate()
